@@ -29,6 +29,9 @@ type C14Script struct {
 	Keep     []int       `json:"keep"`
 	Out      Wire        `json:"out"` // only Foreign, Picks, Salt, Reads, Default, CutAt are used
 	Remove   []int       `json:"remove,omitempty"`
+	// RemoveOwn k>0: the list handed to RemoveElementaryStreams is pmt.Pids()[k-1:], the PMT's
+	// own answer (remove "everything it lists from the k-th on"), not a list in memory of its own
+	RemoveOwn int `json:"remove_own_from,omitempty"`
 }
 
 type c14 struct{}
@@ -40,7 +43,7 @@ func (c14) New() interface{} { return &C14Script{} }
 func (c14) Info() core.Info {
 	return core.Info{
 		Runs: map[string]int{"quick": 600000, "thorough": 40000000},
-		Rule: "Each run sends one abstract PMT (pointer_field + section + 0xFF stuffing) through a scripted packetiser/multiplexer/fragmenting reader into the real accumulator, hands Packets() (or the raw packets) to FilterPMTPacketsToPids with a scripted PID request (subset/order/absent/duplicated/PAT PID/PMT PID/empty), compares the output packets with the reference serialisation of the restricted PMT (same pointer_field, original headers, correct section_length and CRC, 0xFF padding), checks the error contract and that the inputs are untouched, then re-multiplexes the output among foreign packets and reads it back with ReadPMT over a second scripted (fragmenting/failing) reader; RemoveElementaryStreams/Pids/PIDExists are checked on the decoded PMT. Non-trivial = at least one reach probe fired.",
+		Rule: "Each run sends one abstract PMT (pointer_field + section + 0xFF stuffing) through a scripted packetiser/multiplexer/fragmenting reader into the real accumulator, hands Packets() (or the raw packets) to FilterPMTPacketsToPids with a scripted PID request (subset/order/absent/duplicated/PAT PID/PMT PID/empty), compares the output packets with the reference serialisation of the restricted PMT (same pointer_field, original headers, correct section_length and CRC, 0xFF padding), checks the error contract and that the inputs are untouched, then re-multiplexes the output among foreign packets and reads it back with ReadPMT over a second scripted (fragmenting/failing) reader; RemoveElementaryStreams/Pids/PIDExists are checked on the decoded PMT (the list removed is the script's own or, 1 run in 6, a slice of the PMT's own Pids() result). Non-trivial = at least one reach probe fired.",
 		Real: []string{"psi.FilterPMTPacketsToPids", "packet.Header", "packet.Payload", "gots.ComputeCRC", "packet.Accumulator + psi.PmtAccumulatorDoneFunc", "psi.ReadPMT", "psi.NewPMT", "pmt.RemoveElementaryStreams/Pids/PIDExists"},
 		Stub: []string{"PMT source + reference serialiser/CRC", "packetiser", "multiplexer", "SimReader (two legs)", "harness demux by PID"},
 		Assumptions: []string{
@@ -49,7 +52,7 @@ func (c14) Info() core.Info {
 			"the re-read is skipped when the filtered PMT has no stream (that is C06's recorded finding about ReadPMT)",
 			"any number of output packets is accepted as long as headers match the inputs index-wise and the concatenated payload is the expected section followed only by 0xFF",
 		},
-		RequiredProbes: []string{"keep_none", "keep_some", "keep_all", "missing_some", "missing_all", "dup_requested", "pat_or_pmt_pid_requested", "multi_packet_in", "fewer_packets_out", "pointer_gt0", "af_in_header", "reread_ok", "empty_request", "remove_streams", "refused_call_before", "sibling_call_before", "section_plus_pointer_gt_1021", "requested_value_outside_pid_range"},
+		RequiredProbes: []string{"keep_none", "keep_some", "keep_all", "missing_some", "missing_all", "dup_requested", "pat_or_pmt_pid_requested", "multi_packet_in", "fewer_packets_out", "pointer_gt0", "af_in_header", "reread_ok", "empty_request", "remove_streams", "refused_call_before", "sibling_call_before", "section_plus_pointer_gt_1021", "requested_value_outside_pid_range", "remove_list_is_the_pmts_own_pid_list"},
 	}
 }
 
@@ -150,6 +153,9 @@ func (c14) Gen(r *core.Rand, tier string) interface{} {
 	}
 	if r.Chance(1, 4) {
 		s.Remove = append(s.Remove, 0x1F55)
+	}
+	if n > 0 && r.Chance(1, 6) {
+		s.RemoveOwn = 1 + r.Pick(0, 0, 1, 1, n-1, r.Intn(n))
 	}
 	return s
 }
@@ -543,16 +549,32 @@ removal:
 			return
 		}
 		rm := append([]int(nil), s.Remove...)
+		removeSpec := s.Remove
+		if k := s.RemoveOwn - 1; k >= 0 && k < len(s.PMT.Streams) {
+			var own []int
+			if !c.Call("pmt.Pids", func() { own = pm.Pids() }) {
+				return
+			}
+			if k < len(own) {
+				rm = own[k:]
+				removeSpec = nil
+				for _, e := range s.PMT.Streams[k:] {
+					removeSpec = append(removeSpec, e.PID)
+				}
+				c.Probe("remove_list_is_the_pmts_own_pid_list")
+				c.Fault("caller_passes_library_owned_list")
+			}
+		}
 		if !c.Call("pmt.RemoveElementaryStreams", func() { pm.RemoveElementaryStreams(rm) }) {
 			return
 		}
-		if len(s.Remove) > 0 {
+		if len(removeSpec) > 0 {
 			c.Probe("remove_streams")
 		}
 		left := s.PMT
 		left.Streams = nil
 		for _, e := range s.PMT.Streams {
-			if !contains(s.Remove, e.PID) {
+			if !contains(removeSpec, e.PID) {
 				left.Streams = append(left.Streams, e)
 			}
 		}
@@ -563,7 +585,7 @@ removal:
 			return
 		}
 		okq := c.Call("pmt.PIDExists", func() {
-			for _, p := range s.Remove {
+			for _, p := range removeSpec {
 				if pm.PIDExists(p) {
 					c.Fail("remove", "remove:pid_still_exists", p, "absent")
 				}
@@ -626,6 +648,7 @@ func (c14) Shrink(script interface{}) []interface{} {
 	for _, keep := range core.DropChunks(len(s.Remove)) {
 		n := *s
 		n.Remove = nil
+		n.RemoveOwn = 0
 		for _, i := range keep {
 			n.Remove = append(n.Remove, s.Remove[i])
 		}
